@@ -405,7 +405,12 @@ def gen_scalars(r, n):
         truth = item in list(range(max(base)))
       else:
         truth = item in base
-      cells.append(['In', ('List', 'x', 'x in [1], %s in %s' % (lit(item), src)), [1] if truth else []])
+      if r.random() < 0.5:
+        # as a condition of a rule body (compiled to a join over the list's elements)
+        cells.append(['In', ('List', 'x', 'x in [1], %s in %s' % (lit(item), src)), [1] if truth else []])
+      else:
+        # as a value (compiled to the membership function)
+        cells.append(['In', '(%s in %s)' % (lit(item), src), 1 if truth else 0])
     elif f == 'Strings':
       sep = r.choice([',', '--', ' ', 'ab'])
       parts = r.choice([['a', 'b', ''], ['', 'a'], ['', ''], ['x'], ['a', '', 'b'], ['1', '22', '333'], ['ab', 'ba'],
